@@ -63,17 +63,31 @@ Fixpoint remove_bytes_n (k : nat) (t : table) : outcome table :=
 Definition remove_bytes (t : table) (count : Z) : outcome table :=
   remove_bytes_n (Z.to_nat count) t.
 
+(* compiler.prepLocals: the PREP_LOCALS8/16 prologue (n = 2 or 3 bytes) is inserted IN FRONT of
+   the function's bytecode and credited to the FIRST run of the slice:
+       lineInfo := c.bytecode.LineInfoList.First()
+       if lineInfo != nil { lineInfo.InstructionCount += newBytes }
+   The model's list is newest-first, so the first run of the Go slice is the LAST element. *)
+Fixpoint prologue (t : table) (n : Z) : table :=
+  match t with
+  | [] => []
+  | [e] => [LI (li_line e) (li_count e + n)]
+  | e :: r => e :: prologue r n
+  end.
+
 (* operations a compiler run performs on one function's table *)
 Inductive op : Type :=
 | OpAdd (line bytes : Z)        (* AddInstruction -> AddLineNumber(line, len(bytes)+1) *)
 | OpAddBytes (bytes : Z)        (* AddBytes / AppendUint16 / AppendUint32 *)
-| OpRemove (count : Z).         (* RemoveByte (count = 1) / RemoveBytes *)
+| OpRemove (count : Z)          (* RemoveByte (count = 1) / RemoveBytes *)
+| OpPrologue (bytes : Z).       (* prepLocals: bytes inserted at offset 0, credited to the first run *)
 
 Definition apply_op (t : table) (o : op) : outcome table :=
   match o with
   | OpAdd line bytes => Ok (add_line_number t line bytes)
   | OpAddBytes bytes => add_bytes_to_last_line t bytes
   | OpRemove count => remove_bytes t count
+  | OpPrologue bytes => Ok (prologue t bytes)
   end.
 
 Definition step (st : outcome table) (o : op) : outcome table := bind st (fun t => apply_op t o).
@@ -94,6 +108,12 @@ Definition spec_apply (ls : plain) (o : op) : outcome plain :=
       if Z.max count 0 <=? Z.of_nat (length ls)
       then Ok (firstn (length ls - Z.to_nat count) ls)
       else Panic P_EMPTY_REMOVE
+  | OpPrologue bytes =>
+      (* the inserted bytes come first and carry the line of the old byte 0 *)
+      match ls with
+      | [] => Ok []
+      | x :: _ => Ok (repeat x (Z.to_nat bytes) ++ ls)
+      end
   end.
 Definition spec_step (st : outcome plain) (o : op) : outcome plain := bind st (fun ls => spec_apply ls o).
 Definition run_spec (ops : list op) : outcome plain := fold_left spec_step ops (Ok []).
@@ -108,6 +128,7 @@ Definition wf_op (o : op) : Prop :=
   | OpAdd _ bytes => 1 <= bytes
   | OpAddBytes bytes => 0 <= bytes
   | OpRemove _ => True
+  | OpPrologue bytes => 0 <= bytes
   end.
 
 (* abstraction function: expand the runs, in Go slice order *)
